@@ -25,7 +25,7 @@ RULE = (
     "operands shared between branches; handed to real solver runs (adaptive, thermalisation, repeated times); every update's applied "
     "potential is compared with an independent interpreter; non-trivial = the tree has at least one operator and the run took >= 3 "
     "updates (or was rejected, which is itself the violation); time-dependent trees are additionally put through a fixed evaluation "
-    "history (repeated times, coordinates rewritten in place, fresh buffers); distinct = distinct tree digests"
+    "history (repeated times, coordinates rewritten in place, fresh buffers); equality is checked as structural in both directions over the same operand objects; distinct = distinct tree digests"
 )
 BUDGET = {"quick": {"runs": 500, "chunk": 10}, "thorough": {"runs": 60000, "chunk": 20}}
 COMPONENTS = {"real": ["tdgl.Parameter / CompositeParameter (operators, caching, _clear_cache, pickling)", "tdgl.sources.*", "TDGLSolver (evaluation per step, cache clearing)", "Solution save/reload of the parameter"], "stub": ["wall clock"]}
@@ -268,6 +268,29 @@ def post(sim, h):
                 same(re.applied_vector_potential, "reloaded")
             except Exception as e:
                 V.append(Violation("reload-raised", f"reloading the solution raised {type(e).__name__}: {str(e)[:100]}", exc=type(e).__name__, **where))
+        # equality is structural: the same operand objects combined with another operator (at the
+        # root, and one level down inside a larger expression) are a different expression; combined
+        # with the same operator they are the same expression
+        import operator as _op
+
+        from tdgl.parameter import CompositeParameter
+
+        if isinstance(A, CompositeParameter):
+            names = {_op.add: "+", _op.sub: "-", _op.mul: "*", _op.truediv: "/", _op.pow: "**"}
+            for o, sym in names.items():
+                try:
+                    Q = o(A.left, A.right)
+                    same_structure = o is A.operator
+                    pairs = [("root", Q, A), ("nested", Q * 2, A * 2), ("nested-right", 3 - Q, 3 - A)]
+                    for lab, q, a in pairs:
+                        if bool(q == a) != same_structure:
+                            V.append(Violation("equality-not-structural", f"(left {sym} right) {'!=' if same_structure else '=='} (left {names.get(A.operator, '?')} right) built from the same operand objects ({lab})", where_=lab, **where))
+                            break
+                except Exception as e:
+                    tb_ = __import__("traceback").extract_tb(e.__traceback__)
+                    if not any("/tdgl/" in f_.filename for f_ in tb_):
+                        raise
+                    V.append(Violation("equality-raised", f"building / comparing (left {sym} right) raised {type(e).__name__}: {str(e)[:100]}", exc=type(e).__name__, **where))
         for p in walk_params(A, []):
             p._cache.clear()
     return V
